@@ -18,7 +18,8 @@ RULE = ("every public callable (adsb.__all__, commb.__all__, bds53, surv, allcal
         "x TC 0..31 x subtype 0..7 x payload {zeros, ones, 0x55, 0xAA, seeded} (quick: payload rotated with the index, "
         "thorough: multiplied); plus, per TC, all 2^11 values of ME bits 6-16 x {zero, one} tails through the decoders guarded for that TC; oracle: only RuntimeError may escape, values only inside the documented DF/TC/subtype "
         "guard, dispatchers equal the routed decoder; distinct = distinct (function, length, DF, TC, subtype)")
-ASSUMPTIONS = [
+ASSUMPTIONS = ["re-entrancy: a decoder call suspended at a source-line boundary while another call runs to completion (one preemption, engine/interleave.py) must still give its isolated answer - the properties are read as covering calls made from several threads",
+               
     "guard table written from the decoders' docstrings and module headers (function -> accepted DF / TC / TC29 subtype); "
     "functions whose documentation names no format (oe_flag, icao, df, typecode, commb field decoders, isXX, crc ...) are "
     "judged only on 'no exception other than RuntimeError'",
